@@ -8,7 +8,8 @@
    emit steps whose range stays inside the isolating node is evaluated per case by Corr.C18. *)
 From Coq Require Import List Arith.
 From PM Require Import Model.Data Model.Mark Model.Tree Model.Step Spec.Tokens
-  Proofs.ReplaceValid Proofs.SliceSides Proofs.TokenBasics Proofs.ReplaceTokens Proofs.SliceShape Proofs.TokenLaws.
+  Proofs.ReplaceValid Proofs.SliceSides Proofs.TokenBasics Proofs.ReplaceTokens Proofs.SliceShape Proofs.TokenLaws
+  Proofs.AroundLaws.
 Import ListNotations.
 
 Theorem C18_step_inside_node_stays_inside : forall s from to sl structure doc d' A o B C,
@@ -20,3 +21,15 @@ Theorem C18_step_inside_node_stays_inside : forall s from to sl structure doc d'
   DT s d' = A ++ o :: (firstn (from - length A - 1) B ++ IT s sl ++ skipn (to - length A - 1) B) ++ TClose :: C.
 Proof. exact replace_step_inside_node. Qed.
 Print Assumptions C18_step_inside_node_stays_inside.
+
+(* the same for replace-around steps (lift inside the node, set_block_type ...) *)
+Theorem C18_around_step_inside_node_stays_inside : forall s from to gf gt sl ins structure doc d' A o B C,
+  check s doc = true ->
+  Shape s (sl_content sl) (sl_open_start sl) (sl_open_end sl) ->
+  from <= gf -> gf <= gt -> gt <= to -> ins <= length (IT s sl) ->
+  apply s (SReplaceAround from to gf gt sl ins structure) doc = ROk d' ->
+  DT s doc = A ++ o :: B ++ TClose :: C ->
+  length A + 1 <= from -> to <= length A + 1 + length B ->
+  exists B', DT s d' = A ++ o :: B' ++ TClose :: C.
+Proof. exact around_step_inside_node. Qed.
+Print Assumptions C18_around_step_inside_node_stays_inside.
